@@ -113,7 +113,34 @@ def transplant(master, mit, regs, kept, ext, eit):
         prv = a - 1
         while prv >= mit.lo and prv not in kept_pos:
             prv -= 1
-        if b == mit.body_lo and eit.body_lo >= 0 and a >= mit.sig_end:
+        rtxt = master.src[master.toks[a].start:master.toks[b - 1].end]
+        named_open = b <= mit.sig_end and a > mit.lo and master.toks[a - 1].text == "->" and rtxt.startswith("(") and rtxt.endswith(":")
+        named_close = b <= mit.sig_end and rtxt == ")" and any(
+            master.toks[x[0] - 1].text == "->" and x[1] <= a for x in regs if x[2] != "vis" and x[0] > mit.lo)
+        arrow = None
+        if (named_open or named_close) and eit.body_lo >= 0:
+            # the return arrow of the extracted signature (the last `->` outside any bracket before the body)
+            depth = 0
+            for q in range(eit.lo, eit.body_lo):
+                tt = ext.toks[q].text
+                if tt in ("(", "[", "{", "<"):
+                    depth += 1
+                elif tt in (")", "]", "}", ">"):
+                    depth -= 1
+                elif tt == "->" and depth == 0:
+                    arrow = q
+        if named_open and arrow is not None:
+            # a named return value is placed by its role, not by alignment: `-> (r:` ... `)` around the return type
+            pos = ext.toks[arrow].end
+            txt = " " + rtxt + "\n"
+        elif named_close and arrow is not None:
+            pos = ext.toks[eit.body_lo].start
+            txt = ")\n"
+        elif (named_open or named_close):
+            # the extracted function returns nothing: the name has nothing to attach to
+            dropped.append(rtxt)
+            continue
+        elif b == mit.body_lo and eit.body_lo >= 0 and a >= mit.sig_end:
             # header clauses always go right in front of the body, whatever happened to the signature
             pos = ext.toks[eit.body_lo].start
         elif prv < mit.lo:
@@ -303,10 +330,17 @@ def splice(prelude_src, master_src, ext_src, deferred, quarantined=()):
             name = (ck + "::" if ck else "") + it.name
             report["uncontracted"].append(name)
             txt = ext.src[ext.toks[it.lo].start:ext.toks[it.hi - 1].end]
-            if isinstance(quarantined, dict) and quarantined.get(name, 0) >= 1:
+            lvl = quarantined.get(name, 0) if isinstance(quarantined, dict) else 0
+            if lvl >= 1:
                 txt = bodyless(txt)  # its body does not compile in the extracted world
                 report.setdefault("bodies_dropped", []).append(name)
-            texts.append("#[verifier::external_body] // @uncontracted: this function of /repo has no contract\n" + txt)
+            if lvl >= 2:
+                # even its signature is beyond the verifier (e.g. a function-pointer parameter): not part of the
+                # verified crate at all; its callers cannot be verified either
+                report.setdefault("external_functions", []).append(name)
+                texts.append("#[verifier::external] // @uncontracted: this function of /repo has no contract and a signature Verus cannot read\n" + txt)
+            else:
+                texts.append("#[verifier::external_body] // @uncontracted: this function of /repo has no contract\n" + txt)
         if top.kind == "impl":
             head = ext.src[ext.toks[top.lo].start:ext.toks[top.body_lo].end]
             tail.append(head + "\n" + "\n".join(texts) + "\n}\n")
